@@ -589,7 +589,9 @@ class Scheduler:
                 if child_items or item in sgraph_items:
                     if transformation.process_ignored_items or not item.is_ignored:
                         items += (item,) + child_items
-            return items
+            # A definition can be reachable more than once (e.g., a module procedure that is also
+            # declared in a generic interface of the module), but must be processed only once
+            return tuple(dict.fromkeys(items))
 
         if proc_strategy not in (ProcessingStrategy.SEQUENCE, ProcessingStrategy.PLAN):
             error(f'[Loki::Scheduler] Processing {proc_strategy} is not implemented!')
